@@ -36,6 +36,77 @@ theorem remove_unused_alive_is_liveness (v : Name) (l : List AStmt) : v ∈ (ruF
 theorem remove_unused_keeps_reads_bound {l : List AStmt} {bs : List Name} (h : ReadsOK bs l) :
     ReadsOK bs (ruFix l).2 := h.ruFix
 
+/-! ### `UnusedStatementsTestCaseVisitor` -/
+
+/-- The visitor IS the pass: its `deleted_statement_indexes` stays empty, the test case it leaves behind is the
+result of `remove_unused_variables()`, i.e. the same statements in the same order, each with its complete
+assertion list — whatever kind of statement (also an unused literal reduced to a bare `5`) and whatever the
+sources of its assertions (own variable, another variable, a module or class attribute). -/
+theorem visitor_deletes_nothing (l : List AStmt) :
+    (visitUnused l).2 = [] ∧ (visitUnused l).1 = (ruFix l).2 ∧
+    (visitUnused l).1.map AStmt.key = l.map AStmt.key := ⟨rfl, rfl, ruFix_key l⟩
+
+/-- the code's visitor is the member of the `visitWith` family that deletes nothing, and it spares assertions -/
+theorem visitor_is_sparing_member (l : List AStmt) (ops : List Op) :
+    visitUnused l = visitWith visitorDeleted l ∧ history l ops = historyWith visitorDeleted l ops ∧
+    SparesAssertions visitorDeleted :=
+  ⟨visitUnused_eq_visitWith l, history_eq_historyWith l ops, visitorDeleted_spares⟩
+
+/-- **What an unused-statements visitor may delete.**  Replace the visitor by ANY visitor that, after the pass,
+deletes a set of statements chosen as any function of the test case, as long as no chosen statement carries an
+assertion.  Then after any history of passes, such visitors and clones, followed by `write`, every statement
+that carries an assertion is exported, in order, followed by exactly its renderable assertions, and everything
+exported is an original statement with exactly its assertions.  (`bareLeftovers_drops_oracle_cex`: the hypothesis
+cannot be weakened to "the statement is a bare leftover literal".) -/
+theorem C19_any_visitor_sparing_assertions (del : List AStmt → List Nat) (hd : SparesAssertions del)
+    (l : List AStmt) (ops : List Op) (hops : ∀ op ∈ ops, op.isRemoveUnused = true)
+    (noXfail importOk : Bool) (outs : List Outcome) :
+    let r := writeOne noXfail importOk (historyWith del l ops) outs
+    ((l.filter (fun s => !s.asserts.isEmpty)).map AStmt.oracle).Sublist (groups r.2.body) ∧
+    (groups r.2.body).Sublist (l.map AStmt.oracle) := by
+  intro r
+  have hg : groups r.2.body = ((historyWith del l ops).map AStmt.key).map oracleOfKey := by
+    show groups (buildFn noXfail _ (perStmtExc importOk _ outs)).body = _
+    rw [groups_buildFn _ _ _ (by rw [perStmtExc_length]; exact Nat.le_refl _), map_oracle_eq, ruFix_key]
+  refine ⟨?_, ?_⟩
+  · rw [hg]
+    have := (carrying_sublist_historyWith hd l ops hops).map oracleOfKey
+    rw [carrying_eq_filter_map, List.map_map] at this
+    exact this
+  · rw [hg, map_oracle_eq]
+    exact (historyWith_keys del l ops).map oracleOfKey
+
+/-- member form: under such a visitor no oracle is dropped -/
+theorem C19_sparing_visitor_exports_every_assertion (del : List AStmt → List Nat) (hd : SparesAssertions del)
+    (l : List AStmt) (ops : List Op) (hops : ∀ op ∈ ops, op.isRemoveUnused = true)
+    (noXfail importOk : Bool) (outs : List Outcome) :
+    ∀ s ∈ l, ∀ a ∈ s.asserts, a.renders = true →
+      ∃ g ∈ groups (writeOne noXfail importOk (historyWith del l ops) outs).2.body, g.1 = s.sid ∧ a ∈ g.2 := by
+  intro s hs a ha hr
+  refine ⟨s.oracle, ?_, rfl, List.mem_filter.mpr ⟨ha, hr⟩⟩
+  apply (C19_any_visitor_sparing_assertions del hd l ops hops noXfail importOk outs).1.subset
+  refine List.mem_map.mpr ⟨s, List.mem_filter.mpr ⟨hs, ?_⟩, rfl⟩
+  cases hsa : s.asserts with
+  | nil => rw [hsa] at ha; cases ha
+  | cons _ _ => rfl
+
+/-- `var_0 = 7` {`assert module_0.LIMIT == 10`} (unused literal whose only oracle reads a module attribute);
+`var_1 = module_0.Counter()` {`assert var_1.count == 0`} -/
+def litCarrier : List AStmt :=
+  [⟨0, some (.var 0), some 0, [], [.ref 1 (.ext "module_0")], true, []⟩,
+   ⟨1, some (.var 1), none, [.ext "module_0"], [.ref 2 (.var 1)], true, []⟩]
+
+/-- A visitor that deletes the bare literals the pass leaves behind ("a value nobody looks at") does not spare
+assertions, and it drops an oracle: the first observation of the module state hangs on the unused literal. -/
+theorem bareLeftovers_drops_oracle_cex :
+    ¬ SparesAssertions bareLeftovers ∧
+    groups (writeOne false true (historyWith bareLeftovers litCarrier [.visitUnused])
+      [⟨true, none⟩, ⟨true, none⟩]).2.body = [(1, [.ref 2 (.var 1)])] ∧
+    litCarrier.map AStmt.oracle = [(0, [.ref 1 (.ext "module_0")]), (1, [.ref 2 (.var 1)])] := by
+  refine ⟨fun h => ?_, by decide, by decide⟩
+  have := h (ruFix litCarrier).2 0 _ (by decide) rfl
+  exact absurd this (by decide)
+
 /-! ### post-processing histories -/
 
 /-- After ANY sequence of post-processing steps (unused-variable passes, accepted minimiser removals with their
@@ -66,7 +137,8 @@ theorem export_keeps_reads_bound (noXfail : Bool) (l : List AStmt) (excs : List 
 /-! ### the property -/
 
 /-- **C19, full strength.**  Take any test case as it is after assertion generation/minimisation, run any
-number of unused-variable passes and clones over it, then `TestSuiteWriter.write` (which runs the pass again,
+number of unused-variable passes, `UnusedStatementsTestCaseVisitor` visits and clones over it, then
+`TestSuiteWriter.write` (which runs the pass again,
 re-executes the statements with arbitrary outcomes and builds the function).  Then the exported function shows
 every original statement, in order, each followed by exactly its renderable assertions; the test case left
 behind has the same statements with the same complete assertion lists; and if the original reads were bound,
@@ -176,7 +248,25 @@ def ex1 : List AStmt :=
    ⟨3, none, none, [.ext "mod_0", .var 0], [.ref 5 (.ext "mod_0")], false, []⟩]
 
 example : ReadsOK [] ex1 := (readsOKb_iff _ _).mp (by decide)
-example : ∀ op ∈ [Op.removeUnused, Op.clone, Op.removeUnused], op.isRemoveUnused = true := by decide
+example : ∀ op ∈ [Op.removeUnused, Op.clone, Op.visitUnused, Op.removeUnused], op.isRemoveUnused = true := by
+  decide
+/-- the visitor on the literal carrier: `var_0 = 7` loses its binding, keeps its module-attribute assertion -/
+example : (visitUnused litCarrier).1.map (·.bound) = [none, some (.var 1)] ∧ (visitUnused litCarrier).2 = [] ∧
+    groups (writeOne false true (history litCarrier [.visitUnused]) [⟨true, none⟩, ⟨true, none⟩]).2.body =
+      litCarrier.map AStmt.oracle := by decide
+/-- a non-trivial sparing policy: delete the bare leftovers that carry no assertion -/
+def assertionFreeLeftovers (l : List AStmt) : List Nat :=
+  (bareLeftovers l).filter (fun i => match l[i]? with
+    | some s => s.asserts.isEmpty
+    | none => false)
+example : SparesAssertions assertionFreeLeftovers := by
+  intro l i s hi hs
+  have := (List.mem_filter.mp hi).2
+  rw [hs] at this
+  exact List.isEmpty_iff.mp this
+/-- it really deletes (statement 2 of `ex1`, the dead `var_2 = 3`) and keeps the three carrying statements -/
+example : (visitWith assertionFreeLeftovers ex1).2 = [2] ∧
+    (visitWith assertionFreeLeftovers ex1).1.map AStmt.key = [ex1[0].key, ex1[1].key, ex1[3].key] := by decide
 /-- the pass unbinds `var_1` (only an exception assertion and an assertion on `var_0` hang on it) and `var_2`,
 keeps `var_0` -/
 example : (ruFix ex1).2.map (·.bound) = [some (.var 0), none, none, none] := by decide
